@@ -441,7 +441,10 @@ pub fn run_history(h: &History) -> Vec<String> {
     for e in &h.evs {
         m.step(e);
     }
-    m.finish(h);
+    // vectors (a setup history and no comparison group) need no end-of-history state
+    if h.setup.is_empty() || !h.sid.is_empty() {
+        m.finish(h);
+    }
     // A parser whose coroutine died is leaked rather than dropped (dropping a
     // poisoned generator aborts the process in some generator-rs versions).
     if m.dead {
